@@ -120,7 +120,7 @@ class E3Check(Check):
         "op_after_only_xyz_quat_cached", "op_after_only_se3_cached",
         "read_materialised_cache", "derived_object_mutated",
         "parent_mutated_with_live_parts", "refusal_project", "refusal_align",
-        "split_made_parts", "split_returned_self", "transform_left",
+        "split_made_parts", "transform_left",
         "transform_right", "transform_prop", "align_se3", "align_sim3",
         "project_with_cached_positions", "compute_ape", "compute_rpe",
         "compute_main_ape", "compute_merge_results",
